@@ -25,8 +25,45 @@ TRUSTED = [
 ]
 ASSUMPTIONS = ["process-level durations are sleeps of 0-0.2 s on a loaded machine: finishing orders vary between runs and are not enumerated exhaustively; "
                "the API-level tie controls completion order exactly"]
-KF_ID = "KF-C17-job-id-reuse"
-KF_PREV = "KF-C17-two-previous"
+# KF-C17-job-id-reuse (fixed: 649020c) and KF-C17-two-previous (fixed: 01e8198): the model follows the repaired code
+# ([add_fixed]); a duplicate number or a second previous mark is a plain violation again.
+KF_ID = None
+KF_PREV = None
+_SESSIONS = []
+
+
+def kill_sessions(sids):
+    """SIGKILL every process whose session id is in `sids` (jobs and their children live in process groups of
+    their own but cannot leave the session of the shell that started them)"""
+    import signal
+    sids = set(sids)
+    if not sids:
+        return
+    for ent in os.listdir("/proc"):
+        if not ent.isdigit():
+            continue
+        try:
+            st = open("/proc/%s/stat" % ent).read()
+            rest = st[st.rindex(")") + 2:].split()
+            if int(rest[3]) in sids:
+                os.kill(int(ent), signal.SIGKILL)
+        except (OSError, ValueError, IndexError):
+            pass
+
+
+def run_session(cmd, timeout, env, cwd, input=None):
+    """run a shell in a session of its own; on a timeout the whole session is killed. -> hung?"""
+    p = subprocess.Popen(cmd, stdin=subprocess.PIPE if input is not None else subprocess.DEVNULL,
+                         stdout=subprocess.DEVNULL, stderr=subprocess.DEVNULL, env=env, cwd=cwd, start_new_session=True)
+    _SESSIONS.append(p.pid)
+    try:
+        p.communicate(input, timeout=timeout)
+        return False
+    except subprocess.TimeoutExpired:
+        p.kill()
+        p.communicate()
+        kill_sessions([p.pid])
+        return True
 
 
 # ------------------------------------------------------------------ API level
@@ -119,9 +156,9 @@ def oracle(seq, outs):
             live.append(fresh)
             fresh += 1
             if len(set(idsv)) != len(idsv):
-                bad.append(("two live jobs carry the same number after a launch: %s" % body, KF_ID if in_class else None))
+                bad.append(("two live jobs carry the same number after a launch: %s" % body, None))
             if sum(1 for x in tab if x[1] == "-") > 1:
-                bad.append(("two jobs are marked previous: %s" % body, KF_PREV if both else None))
+                bad.append(("two jobs are marked previous: %s" % body, None))
         elif o[0] == "F":
             rel.add(int(o[1:]))
         elif o == "P":
@@ -165,10 +202,11 @@ def oracle(seq, outs):
 
 def eval_api(ctx):
     cases = gen_api(ctx)
-    impl = ctx.impl("c17_jobs", [fields(s, "cur") for s in cases], timeout=1500)
+    impl = ctx.impl("c17_jobs", [fields(s, "fix") for s in cases], timeout=1500)
     use_model = ctx.runner is not None
-    m_cur = ctx.model("c17_jobs", [fields(s, "cur") for s in cases]) if use_model else None
     m_fix = ctx.model("c17_jobs", [fields(s, "fix") for s in cases]) if use_model else None
+    m_old = ctx.model("c17_jobs", [fields(s, "cur") for s in cases]) if use_model else None
+
     def lines_of(il):
         outs = core.dec_line(il) if not il.startswith(("PANIC", "DIED", "TIMEOUT")) else [il]
         return outs if outs else [""]
@@ -176,42 +214,26 @@ def eval_api(ctx):
     # false-alarm discipline (shared, loaded machine): a case that looks wrong is executed once more, alone;
     # only what reproduces is kept. The job table logic is deterministic given the controlled completions.
     suspicious = [k for k, (seq, il) in enumerate(zip(cases, impl))
-                  if any(kn is None for _, kn in oracle(seq, lines_of(il)))
-                  or (use_model and il != m_cur[k] and il != m_fix[k])]
+                  if oracle(seq, lines_of(il)) or (use_model and il != m_fix[k])]
     if suspicious and len(suspicious) <= 60:
-        again = ctx.impl("c17_jobs", [fields(cases[k], "cur") for k in suspicious], timeout=1500, shards=2)
+        again = ctx.impl("c17_jobs", [fields(cases[k], "fix") for k in suspicious], timeout=1500, shards=2)
         for k, il2 in zip(suspicious, again):
             if il2 != impl[k]:
                 ctx.notes.append("api case %d gave a different table on repetition: %r / %r" % (k, impl[k][:120], il2[:120]))
                 impl[k] = il2
     mism, specv = [], []
-    n_cur = n_fix = n_diff = 0
+    n_diff = 0
     for k, (seq, il) in enumerate(zip(cases, impl)):
         outs = lines_of(il)
         for why, known in oracle(seq, outs):
-            v = {"input": {"ops": seq}, "why": why, "code": outs}
-            if known:
-                v["known"] = known
-            specv.append(v)
+            specv.append({"input": {"ops": seq}, "why": why, "code": outs})
         if use_model:
-            if m_cur[k] != m_fix[k]:
+            if m_old[k] != m_fix[k]:
                 n_diff += 1
-            if il == m_cur[k]:
-                n_cur += 1
-            elif il == m_fix[k]:
-                n_fix += 1
-            else:
-                mism.append({"ops": seq, "code": outs, "model_today": core.dec_line(m_cur[k]), "model_repaired": core.dec_line(m_fix[k])})
-    variant = "today"
-    if use_model and n_diff and n_fix and not any(il == m_cur[k] and m_cur[k] != m_fix[k] for k, il in enumerate(impl)):
-        variant = "repaired"
-    elif use_model and n_fix:
-        # mixture: some distinguishing cases follow today's model, some the repaired one
-        for k, il in enumerate(impl):
-            if il != m_cur[k] and il == m_fix[k]:
-                mism.append({"ops": cases[k], "code": core.dec_line(il), "model_today": core.dec_line(m_cur[k]),
-                             "note": "other cases follow today's algorithm"})
-    return cases, m_cur, mism, specv, {"api_cases": len(cases), "distinguishing_cases": n_diff, "code_follows": variant}
+            if il != m_fix[k]:
+                mism.append({"ops": seq, "code": outs, "model": core.dec_line(m_fix[k])})
+    return cases, m_fix, mism, specv, {"api_cases": len(cases), "cases_where_the_old_numbering_differs": n_diff,
+                                       "model": "repaired numbering (max id + 1, one previous)"}
 
 
 # ------------------------------------------------------------------ process level
@@ -272,14 +294,10 @@ def run_proc_case(ctx, idx, c, d):
     env = {"PATH": "/usr/bin:/bin", "HOME": d, "LC_ALL": "C"}
     if c["pause"]:
         env["BRUSH_VERIF_PAUSE"] = c["pause"]
-    try:
-        if c["mode"] == "stdin":
-            p = subprocess.run(cmd, input=script.encode(), stdout=subprocess.DEVNULL, stderr=subprocess.DEVNULL, timeout=120, env=env, cwd=d)
-        else:
-            p = subprocess.run(cmd + ["-c", script], stdin=subprocess.DEVNULL, stdout=subprocess.DEVNULL, stderr=subprocess.DEVNULL, timeout=120, env=env, cwd=d)
-        hung = False
-    except subprocess.TimeoutExpired:
-        hung = True
+    if c["mode"] == "stdin":
+        hung = run_session(cmd, 120, env, d, input=script.encode())
+    else:
+        hung = run_session(cmd + ["-c", script], 120, env, d)
 
     def rd(p_):
         try:
@@ -317,11 +335,10 @@ def judge_proc(c, r):
     for txt in r["jobs"]:
         nums = [l.split("]")[0][1:] for l in txt.splitlines() if l.startswith("[")]
         if len(set(nums)) != len(nums):
-            in_class = c["mode"] == "stdin" and per >= 3
-            bad.append(("`jobs` lists a job number twice: %r" % txt, KF_ID if in_class else None))
+            bad.append(("`jobs` lists a job number twice: %r" % txt, None))
         marks = [l.split("]")[1][:1] for l in txt.splitlines() if l.startswith("[")]
         if marks.count("-") > 1:
-            bad.append(("`jobs` marks two jobs as previous: %r" % txt, KF_PREV if per >= 3 else None))
+            bad.append(("`jobs` marks two jobs as previous: %r" % txt, None))
         if marks.count("+") > 1:
             bad.append(("`jobs` marks two jobs as current: %r" % txt, None))
     return bad
@@ -338,11 +355,8 @@ def witness(ctx, d):
         if os.path.exists(p):
             os.remove(p)
         os.mkfifo(p)
-    try:
-        subprocess.run([ctx.vbrush, "--norc", "--noprofile", "--no-config"], input=(WITNESS % {"d": d}).encode(),
-                       stdout=subprocess.DEVNULL, stderr=subprocess.DEVNULL, timeout=60, cwd=d,
-                       env={"PATH": "/usr/bin:/bin", "HOME": d})
-    except subprocess.TimeoutExpired:
+    if run_session([ctx.vbrush, "--norc", "--noprofile", "--no-config"], 60, {"PATH": "/usr/bin:/bin", "HOME": d}, d,
+                   input=(WITNESS % {"d": d}).encode()):
         return None
     try:
         return open(os.path.join(d, "wjobs")).read()
@@ -376,11 +390,13 @@ def eval_proc(ctx):
             nums = [l.split("]")[0][1:] for l in w.splitlines() if l.startswith("[")]
             wdup = len(set(nums)) != len(nums)
             if wdup:
-                specv.append({"input": {"stdin": WITNESS % {"d": "$D"}}, "why": "`jobs` lists a job number twice: %r" % w, "known": KF_ID})
+                specv.append({"input": {"stdin": WITNESS % {"d": "$D"}}, "why": "`jobs` lists a job number twice: %r" % w})
         return cases, specv, {"proc_cases": len(cases), "witness_duplicate_at_stdin_front_end": wdup,
                               "proc_modes": {m: sum(1 for c in cases if c["mode"] == m) for m in ("stdin", "c")},
                               "proc_cpus": {str(m): sum(1 for c in cases if c["cpus"] == m) for m in (None, "0", "0,1")}}
     finally:
+        kill_sessions(_SESSIONS)
+        del _SESSIONS[:]
         shutil.rmtree(d, ignore_errors=True)
 
 
@@ -390,7 +406,7 @@ def run(ctx):
     dist.update(pdist)
     small = [k for k, s in enumerate(cases) if len(s) <= 6]
     pick = ctx.rng.sample(small, min(40, len(small)))
-    ce = ctx.coq_eval("c17_jobs", [fields(cases[k], "cur") for k in pick])
+    ce = ctx.coq_eval("c17_jobs", [fields(cases[k], "fix") for k in pick])
     if [m_cur[k] for k in pick] != ce:
         raise core.CheckBroken("extracted runner and vm_compute disagree on c17_jobs")
     nontriv = {tuple(s) for s in cases if s.count("A") >= 2 and ("P" in s or "W" in s)}
@@ -424,7 +440,7 @@ def search(ctx, res):
         cases = gen_api(ctx)[-1500:]
     finally:
         ctx.rng, ctx.quick = old, q
-    impl = ctx.impl("c17_jobs", [fields(s, "cur") for s in cases], timeout=1500)
+    impl = ctx.impl("c17_jobs", [fields(s, "fix") for s in cases], timeout=1500)
     specv = []
     for seq, il in zip(cases, impl):
         outs = core.dec_line(il) if not il.startswith(("PANIC", "DIED", "TIMEOUT")) else [il]
